@@ -431,8 +431,11 @@ def check_unit(F, struct, classes):
     for b in bindings[:24]:
         res = check_binding(F, struct, spec, b, classes)
         nbad = sum(1 for r in res if not r[0])
-        if best is None or nbad < best[0]:
-            best = (nbad, res)
+        # a binding under which everything matches in real arithmetic and only a float hazard is reported explains the code better than
+        # a permutation under which the formulas themselves differ
+        rank = (sum(1 for r in res if not r[0] and r[1] != "foreign-constant"), nbad)
+        if best is None or rank < best[0]:
+            best = (rank, res)
         if nbad == 0:
             break
     return best[1]
@@ -461,9 +464,24 @@ def float_hazard(got, want):
     v = foreign_constant(got, want)
     if v is not None:
         return "the literal %g, which the documented formula does not contain" % v
-    from norm import hazards
+    from norm import EQ_KEY, Normalizer, assignments, cond_atoms, hazards, resolve
     hz = hazards(got)
-    return hz[0] if hz else None
+    if hz:
+        return hz[0]
+    # a quantity added inside the arms of a conditional and removed after the join: look at every resolved outcome as well
+    atoms = cond_atoms(got) if isinstance(got, tuple) else []
+    if atoms:
+        N = Normalizer()
+        n = 0
+        for f in assignments(atoms, N):
+            n += 1
+            if n > 1024:
+                return "more case splits than the hazard scan enumerates (UNRECOGNISED)"
+            f.pop(EQ_KEY, None)
+            hz = hazards(resolve(got, f), N)
+            if hz:
+                return hz[0]
+    return None
 
 
 def check_binding(F, struct, spec, b, classes):
